@@ -66,7 +66,7 @@ def tsd_history(writer):
     return out
 
 
-def gen_tsd_writer(rng, wid, end, pool=5, allow_same_cycle_readd=False, magic=None, big=False):
+def gen_tsd_writer(rng, wid, end, pool=5, allow_same_cycle_readd=False, magic=None, big=False, mid=False):
     """TSD<Int,TS<Int>> writer with key histories: add, update, remove, re-add in a later cycle, many keys per cycle"""
     st = {}
     script = {}
@@ -77,9 +77,11 @@ def gen_tsd_writer(rng, wid, end, pool=5, allow_same_cycle_readd=False, magic=No
             break
         removed, modified = [], {}
         n_ops = rng.choice((1, 1, 2, 3, 5)) if not big else rng.choice((3, 8, 20))
+        if mid:
+            n_ops = rng.choice((2, 4, 6, 9))        # key pools of 9-20: the live count hovers around the 8 / 16 boundaries, removals are frequent
         for _ in range(n_ops):
             k = rng.randint(1, pool if not big else 80)
-            if k in st and k not in modified and k not in removed and rng.random() < 0.3:
+            if k in st and k not in modified and k not in removed and rng.random() < (0.45 if mid else 0.3):
                 removed.append(k)
             elif k not in removed:
                 v = rng.randint(0, 99)
